@@ -26,14 +26,19 @@ HELD_HISTORIES = [
       [("create", "W/a/b/x")], [("release", "W/a/b")], [("create", "W/a/y")]]),
 ]
 
-# input of the recorded finding D24 (known_findings.json): run on every check of C01 and C02, reported under their
+# inputs of recorded findings (known_findings.json; none at present): run on every check of C01 and C02, reported under their
 # own signatures
 KNOWN_BURSTS = [
-    ("d24-directory-leaves-and-returns-at-once", [("mkdir", "W/d"), ("mkdir", "W/d/s")],
-     [[("rename", "W/d", "O/d"), ("rename", "O/d", "W/e")], [("create", "W/e/f")], [("create", "W/e/s/g")]]),
 ]
 
 FIXED_BURSTS = [
+    # a directory leaves the tree and comes back under another name at once: the kernel hands it its old descriptors, and the
+    # delayed clean-up of the departure must not remove them (defect D24, repaired)
+    ([("mkdir", "W/d"), ("mkdir", "W/d/s")],
+     [[("rename", "W/d", "O/d"), ("rename", "O/d", "W/e")], [("create", "W/e/f")], [("create", "W/e/s/g")]]),
+    ([("mkdir", "W/d"), ("mkdir", "W/d/s"), ("mkdir", "W/p")],
+     [[("rename", "W/d", "O/d"), ("rename", "O/d", "W/p/e"), ("rename", "W/p", "W/q")], [("create", "W/q/e/s/g")], [("rename", "W/q/e", "O/x")],
+      [("create", "O/x/s/h")]]),
     # a directory is made and the directory it is in (or one further up) is renamed at once: the new directory's IN_CREATE is
     # read when its path is gone - it must be covered all the same (defect D23, repaired)
     ([("mkdir", "W/a")], [[("mkdir", "W/a/b"), ("rename", "W/a", "W/c")], [("create", "W/c/b/f")]]),
